@@ -251,7 +251,10 @@ def execute(loop: steploop.StepLoop, cfg: dict, script: List[dict], opts: dict, 
             payload = b"moved" if (opts.get("redirect_body") and rq["method"] != "HEAD") else b""
         if r["setc"]:
             extra.append(("Set-Cookie", f"s{k}=1; Path=/"))
-        conn.feed(http_response(r["status"], extra, payload, reason="X"))
+        data = http_response(r["status"], extra, payload, reason="X")
+        if opts.get("redirect_body") == "partial" and payload and r["kind"] == "redirect" and r["form"] != "missing":
+            data = data[:-3]         # the rest of the redirect's body never arrives: only release() frees the connection
+        conn.feed(data)
         loop.run_until_idle()
 
     end = {"ev": "end", "outcome": "ok", "status": 0, "hist": [], "selfInHist": False, "acquired": 0,
@@ -337,7 +340,7 @@ def script_of_state(script: List[dict]) -> List[dict]:
 def driver_opts(rng: Any) -> dict:
     """Dimensions the reference does not look at; chosen by the driver."""
     return {"via": rng.choice(["request", "request", "session"]),
-            "redirect_body": rng.random() < 0.3}
+            "redirect_body": rng.choice(["", "", "", "full", "partial"])}
 
 
 def concretise(script: List[dict], rng: Any) -> List[dict]:
